@@ -57,14 +57,21 @@ def make(prop_id, lean_props, lean_lemmas=(), n_quick=350, n_thorough=6000, extr
               "stop_children, priority, autostart, max_retry, hooks with scripted outcomes) + worker behaviours (obey after d ms | "
               "ignore, SIGKILL latency, children, exec failure) + op list (requests of all modelled commands valid and corrupted, raw "
               "frames, periodic check, timer wake, time advance, worker death, outside kill, death before the k-th kernel call), "
-              "generated adaptively against the running implementation with a %s-specific op/command mix; non-trivial = "
+              "generated adaptively against the running implementation with a %s-specific op/command mix; one scenario in seven also "
+              "contains unit-level probes (a watcher status forced to any value, a single watcher method called directly: "
+              "manage_processes, _start, _stop, spawn_processes, spawn_process, kill_processes, reap_processes) which only the "
+              "model/code comparison judges; non-trivial = "
               "at least 3 kernel-visible effects (spawn/signal/reap) and one request; distinct by content hash" % prop_id)
 
     def generate(rng, tier):
         n = n_quick if tier == "quick" else n_thorough
         out = []
+        prof = PROFILES.get(prop_id, {})
         for _ in range(n):
-            sc, _steps = coregen.gen_scenario(rng, profile=PROFILES.get(prop_id, {}))
+            # one scenario in seven is a *unit-level* one: besides the stimuli it forces watcher statuses (unreachable
+            # states) and calls single watcher methods directly; only the model/code comparison judges those
+            p = dict(prof, unit_ops=0.2) if rng.random() < 0.14 else prof
+            sc, _steps = coregen.gen_scenario(rng, profile=p)
             out.append(sc)
         return out
 
@@ -99,6 +106,8 @@ def make(prop_id, lean_props, lean_lemmas=(), n_quick=350, n_thorough=6000, extr
     def oracle(sc, obs):
         if "steps" not in obs:
             return [{"sig": "harness-exception", "msg": obs.get("harness_exception"), "tb": obs.get("tb")}]
+        if any(op[0] in ("poke", "call") for op in sc["ops"]):
+            return []                     # unit-level scenario: states no history reaches — the properties do not speak of them
         counters = {(w, h): n for w, h, n in obs.get("hook_calls", [])}
         fs = coreprops.run_oracle(prop_id, sc, obs["steps"], counters)
         return fs[:4]
